@@ -2,6 +2,7 @@
 
 import csv
 import datetime as dt
+import datetime as _dt
 import io
 import os
 
@@ -33,6 +34,12 @@ class C04Alphabet(alphabet.Alphabet):
             "P5b": (t[3], "m", {"a": "\n", "c": "\r\n"}, {"v": 0}),
         }
         self.z = "z;'\"\n" + uni
+        # a file larger than one 8 KiB read-ahead chunk: 130 rows of about 75 bytes
+        self.big = []
+        for i in range(130):
+            name = "B%d" % i
+            self.points[name] = (t[0] + _dt.timedelta(milliseconds=i), "big", {"i": str(i), "pad": "p" * 30}, {"v": i})
+            self.big.append(name)
 
 
 DIALECTS = {
@@ -103,6 +110,13 @@ def c04_ops(alpha, cfg, tier):
         ops = [o for o in ops if o[0] != "reopen"]  # opening with w+ truncates by definition
     if cfg.get("csv", {}).get("lineterminator") == "\n":
         ops[4] = ("insert_multiple", ("P4", "P5b"), None, False, "db")
+    if cfg.get("init"):
+        # big-file configuration: reads that stop at the first / an early row leave the position inside the first chunk
+        ops = [("get", ("cmp", "tags", ("i",), "==", "0"), None), ("contains", ("cmp", "tags", ("i",), "==", "3"), None),
+               ("insert", "P0", None, False, "db"), ("insert", "P1", None, True, "db"),
+               ("remove", ("cmp", "tags", ("i",), "==", "1"), None, "db"),
+               ("update", ("cmp", "tags", ("i",), "==", "2"), W.mkspec(tags={"a": alpha.z}), None, "db"), ("reopen",)]
+        return ops
     if tier != "quick":
         ops += [("remove", ("cmp", "measurement", (), "==", "zz"), None, "db"), ("reindex",),
                 ("update", sel_a, W.mkspec(time=("fn", "t_swap")), None, "db")]
@@ -153,6 +167,10 @@ class C04(E1Check):
             add(True, None, "default", "w+")
             cfgs[0]["auto_index"] = True
             cfgs[1]["auto_index"] = False
+            for flush, auto in ((True, True), (True, False), (False, True)):
+                cfgs.append({"name": f"csv/flush={'T' if flush else 'F'}/{'auto' if auto else 'manual'}/bigfile-130-rows", "storage": "csv",
+                             "auto_index": auto, "csv": {} if flush else {"flush_on_insert": False}, "N": 140, "D": 3,
+                             "init": (("insert_multiple", tuple(self.alpha.big), None, False, "db"),)})
         else:
             for flush in (True, False):
                 for enc in ENCODINGS:
@@ -162,6 +180,13 @@ class C04(E1Check):
             add(False, "utf-16", "semicolon", "w+")
             for i, c in enumerate(cfgs):
                 c["auto_index"] = i % 3 != 1
+            for flush, auto, enc in ((True, True, None), (True, False, None), (False, True, None), (False, False, "utf-16")):
+                opts = {} if flush else {"flush_on_insert": False}
+                if enc:
+                    opts["encoding"] = enc
+                cfgs.append({"name": f"csv/flush={'T' if flush else 'F'}/{'auto' if auto else 'manual'}/enc={enc or 'default'}/bigfile-130-rows",
+                             "storage": "csv", "auto_index": auto, "csv": opts, "N": 140, "D": 4,
+                             "init": (("insert_multiple", tuple(self.alpha.big), None, False, "db"),)})
         return cfgs
 
     def bounds(self):
